@@ -13,6 +13,7 @@ import (
 	"strconv"
 
 	"github.com/openGemini/openGemini/engine/immutable/colstore"
+	"github.com/openGemini/openGemini/engine/index/bloomfilter"
 	"github.com/openGemini/openGemini/engine/index/sparseindex"
 	"github.com/openGemini/openGemini/lib/fragment"
 	"github.com/openGemini/openGemini/lib/logstore"
@@ -58,6 +59,7 @@ type BAtomObs struct {
 	AMatch  []bool `json:"amatch"`  // per segment: some row satisfies this atom alone
 	NoToken bool   `json:"notoken"` // MATCHPHRASE phrase from which the reader's tokenizer produces no token
 	Gram    bool   `json:"gram"`    // the reader's tokenizer produces a multi-token gram hash for the phrase (a hash that is not the hash of a single token)
+	NonAscii []bool `json:"nonascii"` // per segment: a row value this atom matches holds a byte >= 0x80 (non-ASCII text)
 }
 
 type BloomOut struct {
@@ -322,11 +324,27 @@ func runBloomCase(id int, in *BloomIn, work string) *BloomOut {
 				}
 			}
 			ob.AMatch = append(ob.AMatch, m)
+			na := false
+			if a.Col != "n" {
+				for r := st; r < st+sz; r++ {
+					if v := colOf(in, a.Col)[r]; v != nil && in.evalRow(a, r) {
+						for _, b := range []byte(*v) {
+							na = na || b >= 0x80
+						}
+					}
+				}
+			}
+			ob.NonAscii = append(ob.NonAscii, na)
 			st += sz
 		}
 		if a.Op == "match" {
-			// reader side: a fresh gram tokenizer per phrase (as LineFilterReader.hitExpr does); single tokens: plain tokenizer
-			ph := hashesOf(tokenizer.NewSimpleGramTokenizer(tokenizer.CONTENT_SPLIT_TABLE, 4, 0), a.Lit)
+			// reader side: the hashes the filter readers look the phrase up by (FilterReader.getAllHashes through the hook
+			// VerifPhraseHashes, reader version 4 as NewBloomFilterIndexReader sets it); single tokens: UTF-8 aware tokenizer
+			one := (&BCond{Op: "match", Col: a.Col, Lit: a.Lit}).expr()
+			ph := map[uint64]bool{}
+			for _, h := range bloomfilter.VerifPhraseHashes(one, 4, map[string][]byte{a.Col: tokenizer.CONTENT_SPLIT_TABLE})[a.Lit] {
+				ph[h] = true
+			}
 			single := hashesOf(tokenizer.NewSimpleUtf8Tokenizer(tokenizer.CONTENT_SPLIT_TABLE), a.Lit)
 			ob.NoToken = len(ph) == 0
 			for h := range ph {
@@ -389,6 +407,12 @@ func runBloomCase(id int, in *BloomIn, work string) *BloomOut {
 var vocab = []string{"hello", "world", "foo", "bar", "agent7", "agent1", "a", "b1", "x", "lorem", "ipsum", "GET", "404", "hello2", "he", "error", "Error"}
 var seps = []string{" ", " ", " ", ",", "-", "/", ":", ", ", "  ", "=", "."}
 
+// non-ASCII words: CJK (3-byte characters), Latin-1 letters (2 bytes), an emoji (4 bytes), ASCII glued to non-ASCII
+var vocabNA = []string{"华为", "华", "日志", "错误", "naïve", "é", "ab华", "华ab", "x😀", "größe", "ошибка"}
+
+// nonASCII: share (percent) of words taken from vocabNA; words may then also be glued without a separator
+var nonASCII int
+
 func genText(r *gen.Rand, nv int) *string {
 	k := r.Intn(5)
 	s := ""
@@ -396,10 +420,14 @@ func genText(r *gen.Rand, nv int) *string {
 		s = gen.Pick(r, seps)
 	}
 	for i := 0; i < k; i++ {
-		if i > 0 {
+		if i > 0 && !(nonASCII > 0 && r.Chance(1, 4)) {
 			s += gen.Pick(r, seps)
 		}
-		s += vocab[r.Intn(nv)]
+		if r.Intn(100) < nonASCII {
+			s += gen.Pick(r, vocabNA)
+		} else {
+			s += vocab[r.Intn(nv)]
+		}
 	}
 	if r.Chance(1, 12) {
 		s += gen.Pick(r, seps)
@@ -409,6 +437,11 @@ func genText(r *gen.Rand, nv int) *string {
 
 func genBloomCase(r *gen.Rand) *BloomIn {
 	in := &BloomIn{Kind: "bloom"}
+	nonASCII = 0
+	if r.Chance(1, 4) {
+		nonASCII = 20 + r.Intn(60)
+		in.Tag = "nonascii"
+	}
 	n := 2 + r.Intn(30)
 	nv := 4 + r.Intn(len(vocab)-3)
 	nullPct := 0
@@ -497,6 +530,9 @@ func genBloomCase(r *gen.Rand) *BloomIn {
 			case k < 8: // the whole value (a phrase of several tokens)
 				return *v
 			default:
+				if nonASCII > 0 && r.Bool() {
+					return gen.Pick(r, []string{"华", "华为", "ab", "为", "é", "na", "ve", "x", "志", "日志", "ошибка", "gr"})
+				}
 				return vocab[r.Intn(len(vocab))]
 			}
 		}
